@@ -281,6 +281,11 @@ def check(run: Run) -> None:
                 if missing:
                     run.violation("R14.1", fi.module, fi.qualname, f"walk over {ast.unparse(g.iter)} without {', '.join(missing)}", f"{fi.qualname} renders the elements of `{ast.unparse(g.iter)}` but only those of kind {sorted(kinds)}: {', '.join(missing)} content below this point is dropped from the rendering while the projection reports lossy=false", line=getattr(w, "lineno", fi.node.lineno))
 
+    # ---------------------------------------------------------------- R14.9
+    from .c04 import check_bool_keyed_tables
+
+    check_bool_keyed_tables(run, "R14.9")
+
     # ---------------------------------------------------------------- R14.8
     run.rule("R14.8", "no field is dropped because of its VALUE: in the JSON/Markdown converters nothing that came out of a value / node conversion is tested for None or truthiness to decide whether the key is kept (KEY::null, empty strings and empty lists are content)", 1)
     conv_names = {q for _m, q, _k in CONVERTERS} | {f.name for f in run.project.mod("mcp.eject").functions.values() if f.name.startswith("_convert")}
